@@ -1332,7 +1332,9 @@ class Compiler:
         # objects) read the target language from the variable scope.
         # The variable of that name is put back when the element ends.
         publish = "econtext['target_language'] = target_language"
-        names = ("target_language", )
+        # (a new object for every element: its identity names the
+        # variables that hold the previous binding)
+        names = ["target_language"]
         return template("BACKUP = target_language", BACKUP=backup) + \
             self._engine(node.expression, store(tmp)) + \
             [ast.Assign([store("target_language")], load(tmp))] + \
